@@ -1,8 +1,12 @@
 #!/bin/sh
-# confirm and run every finished round-2 seeded change that has not been imported yet
+# confirm and run every finished later-round seeded change (/tmp/wt/cNN<letter>) not imported yet
 cd /verif
-for d in /tmp/wt/c[0-9][0-9]b; do
-  id=$(basename $d | tr a-z A-Z | sed 's/B$/-b/')
+# usage: tools/round2.sh [c05c c06c ...]   (default: every finished one)
+if [ $# -gt 0 ]; then set -- $(for a in "$@"; do echo /tmp/wt/$a; done); else set -- /tmp/wt/c[0-9][0-9][b-z]; fi
+for d in "$@"; do
+  [ -d "$d" ] || continue
+  base=$(basename $d)
+  id=$(echo $base | cut -c1-3 | tr a-z A-Z)-$(echo $base | cut -c4)
   [ -f $d/_seeded/meta.json ] || continue
   [ -d seeded/$id ] && continue
   r=$(/venv/bin/python tools/seeded.py confirm $d $id 2>&1 | tail -1)
